@@ -27,3 +27,53 @@ impl NetworkFilterMask {
 pub open spec fn mask_or(a: NetworkFilterMask, b: NetworkFilterMask) -> NetworkFilterMask { NetworkFilterMask { bits: a.bits | b.bits } }
 pub open spec fn mask_and(a: NetworkFilterMask, b: NetworkFilterMask) -> NetworkFilterMask { NetworkFilterMask { bits: a.bits & b.bits } }
 pub open spec fn mask_not(a: NetworkFilterMask) -> NetworkFilterMask { NetworkFilterMask { bits: !a.bits } }
+
+// operators used on masks in the parser (`|`, `&`, `!`, `|=`, `&=`, `==`): bitflags semantics, each body
+// verified against its spec
+impl vstd::std_specs::ops::BitOrSpecImpl<NetworkFilterMask> for NetworkFilterMask {
+    open spec fn obeys_bitor_spec() -> bool { true }
+    open spec fn bitor_req(self, rhs: NetworkFilterMask) -> bool { true }
+    open spec fn bitor_spec(self, rhs: NetworkFilterMask) -> NetworkFilterMask { NetworkFilterMask { bits: self.bits | rhs.bits } }
+}
+impl core::ops::BitOr for NetworkFilterMask {
+    type Output = NetworkFilterMask;
+    fn bitor(self, rhs: NetworkFilterMask) -> (r: NetworkFilterMask) { NetworkFilterMask { bits: self.bits | rhs.bits } }
+}
+impl vstd::std_specs::ops::BitAndSpecImpl<NetworkFilterMask> for NetworkFilterMask {
+    open spec fn obeys_bitand_spec() -> bool { true }
+    open spec fn bitand_req(self, rhs: NetworkFilterMask) -> bool { true }
+    open spec fn bitand_spec(self, rhs: NetworkFilterMask) -> NetworkFilterMask { NetworkFilterMask { bits: self.bits & rhs.bits } }
+}
+impl core::ops::BitAnd for NetworkFilterMask {
+    type Output = NetworkFilterMask;
+    fn bitand(self, rhs: NetworkFilterMask) -> (r: NetworkFilterMask) { NetworkFilterMask { bits: self.bits & rhs.bits } }
+}
+impl vstd::std_specs::ops::NotSpecImpl for NetworkFilterMask {
+    open spec fn obeys_not_spec() -> bool { true }
+    open spec fn not_req(self) -> bool { true }
+    open spec fn not_spec(self) -> NetworkFilterMask { NetworkFilterMask { bits: !self.bits } }
+}
+impl core::ops::Not for NetworkFilterMask {
+    type Output = NetworkFilterMask;
+    fn not(self) -> (r: NetworkFilterMask) { NetworkFilterMask { bits: !self.bits } }
+}
+impl vstd::std_specs::ops::BitOrAssignSpecImpl<NetworkFilterMask> for NetworkFilterMask {
+    open spec fn obeys_bitor_assign_spec() -> bool { true }
+    open spec fn bitor_assign_req(&self, rhs: NetworkFilterMask) -> bool { true }
+    open spec fn bitor_assign_spec(&self, rhs: NetworkFilterMask) -> &NetworkFilterMask { &NetworkFilterMask { bits: self.bits | rhs.bits } }
+}
+impl core::ops::BitOrAssign for NetworkFilterMask {
+    fn bitor_assign(&mut self, rhs: NetworkFilterMask) { self.bits = self.bits | rhs.bits; }
+}
+impl vstd::std_specs::ops::BitAndAssignSpecImpl<NetworkFilterMask> for NetworkFilterMask {
+    open spec fn obeys_bitand_assign_spec() -> bool { true }
+    open spec fn bitand_assign_req(&self, rhs: NetworkFilterMask) -> bool { true }
+    open spec fn bitand_assign_spec(&self, rhs: NetworkFilterMask) -> &NetworkFilterMask { &NetworkFilterMask { bits: self.bits & rhs.bits } }
+}
+impl core::ops::BitAndAssign for NetworkFilterMask {
+    fn bitand_assign(&mut self, rhs: NetworkFilterMask) { self.bits = self.bits & rhs.bits; }
+}
+impl vstd::std_specs::cmp::PartialEqSpecImpl for NetworkFilterMask {
+    open spec fn obeys_eq_spec() -> bool { true }
+    open spec fn eq_spec(&self, other: &Self) -> bool { self.bits == other.bits }
+}
